@@ -25,6 +25,7 @@ import (
 	"math/big"
 	"reflect"
 	"runtime"
+	"runtime/debug"
 	"sort"
 	"strconv"
 	"strings"
@@ -697,6 +698,7 @@ type runner struct {
 	samples  int
 	capped   bool
 	lastTick int64
+	sigN     map[string]int
 }
 
 func (r *runner) mine() bool { r.idx++; return r.c.Mine(r.idx) }
@@ -705,7 +707,7 @@ func (r *runner) expired() bool {
 	if r.capped {
 		return true
 	}
-	if r.evals-r.lastTick > 20000 {
+	if r.evals-r.lastTick > 2000 {
 		r.lastTick = r.evals
 		if r.c.Expired() {
 			r.capped = true
@@ -714,15 +716,30 @@ func (r *runner) expired() bool {
 	return r.capped
 }
 
-// report re-runs the failing case and records the findings that repeat.
-func (r *runner) report(k kase, fs []finding) {
+// report re-runs the failing case and records the findings that repeat.  Once a
+// signature has been recorded a few times by this worker further cases with only
+// such signatures are merely counted (the framework keeps 3 per signature anyway).
+func (r *runner) report(k kase, fs []finding, again func() []finding) {
 	if len(fs) == 0 {
 		return
 	}
-	again := execCase(k)
+	fresh := false
 	for _, f := range fs {
-		for _, g := range again {
+		if r.sigN[f.sig] < 3 {
+			fresh = true
+		}
+	}
+	if !fresh {
+		for _, f := range fs {
+			r.sigN[f.sig]++
+		}
+		return
+	}
+	second := again()
+	for _, f := range fs {
+		for _, g := range second {
 			if g.sig == f.sig {
+				r.sigN[f.sig]++
 				r.c.Violation(f.sig, f.part, f.msg, k)
 				break
 			}
@@ -758,7 +775,7 @@ func (r *runner) input(in []byte, ts []*target, deep, alloc bool) {
 		wellFormed = true
 	}
 	if fs := checkBytes(in); len(fs) > 0 {
-		r.report(kase{Part: "bytes", In: packBytes(in)}, fs)
+		r.report(kase{Part: "bytes", In: packBytes(in)}, fs, func() []finding { return checkBytes(in) })
 	}
 	r.evals++
 	for _, t := range ts {
@@ -769,27 +786,58 @@ func (r *runner) input(in []byte, ts []*target, deep, alloc bool) {
 			r.nontriv++
 		}
 		if len(fs) > 0 {
-			r.report(kase{Part: "decode", Type: t.name, In: packBytes(in), Deep: deep}, fs)
+			r.report(kase{Part: "decode", Type: t.name, In: packBytes(in), Deep: deep}, fs, func() []finding { return checkDecode(t, in, deep) })
 		}
 		if alloc {
 			if fs := checkAlloc(t, in); len(fs) > 0 {
-				r.report(kase{Part: "alloc", Type: t.name, In: packBytes(in)}, fs)
+				allocTainted = true
+				r.report(kase{Part: "alloc", Type: t.name, In: packBytes(in)}, fs, func() []finding { return checkAlloc(t, in) })
 			}
 		}
 	}
 }
 
-// limitMemory caps the address space of this worker process: a decoder that
-// allocates what an input merely declares must crash this worker (reported by
-// the framework as a violation), not exhaust the machine.
-func limitMemory() {
-	lim := syscall.Rlimit{Cur: 4 << 30, Max: 4 << 30}
-	syscall.Setrlimit(syscall.RLIMIT_AS, &lim)
+// limitMemory keeps the worker's heap modest even when the garbage collector is
+// starved of CPU (soft limit, only changes GC pacing).
+func limitMemory() { debug.SetMemoryLimit(768 << 20) }
+
+// allocTainted is set as soon as a decode allocated in proportion to a declared
+// size (or panicked on one).  From then on inputs declaring >= 2^32 bytes are not
+// executed any more: a decoder with that defect would try to allocate gigabytes
+// in every worker.  Every worker runs the same sentinel first, so all of them
+// take the same decision.
+var allocTainted bool
+
+// sentinel: tiny inputs declaring 64 KB .. 64 MB in every header form, bare and
+// nested, against every target, under the allocation oracle.
+func (r *runner) sentinel() {
+	for _, list := range []bool{false, true} {
+		for _, n := range []uint64{65535, 1 << 20, 1 << 26} {
+			for _, h := range headerForms(list, n) {
+				for _, in := range [][]byte{h, append(append([]byte{}, h...), 0x01), wrap(h), wrap(wrap(h)), wrap(append([]byte{0x01}, h...))} {
+					for _, t := range targets {
+						in, t := in, t
+						r.evals++
+						if p, _, _ := fw.Try(func() { rlp.DecodeBytes(in, t.mk()) }); p {
+							allocTainted = true
+							continue // the grammar phase reports the panic with its site
+						}
+						if fs := checkAlloc(t, in); len(fs) > 0 {
+							allocTainted = true
+							if r.c.Shard == 0 {
+								r.report(kase{Part: "alloc", Type: t.name, In: packBytes(in)}, fs, func() []finding { return checkAlloc(t, in) })
+							}
+						}
+					}
+				}
+			}
+		}
+	}
 }
 
 func run(c *fw.Ctx) {
 	limitMemory()
-	r := &runner{c: c}
+	r := &runner{c: c, sigN: map[string]int{}}
 	defer func() {
 		c.Eval(r.evals)
 		c.NontrivialN(r.nontriv)
@@ -809,6 +857,7 @@ func run(c *fw.Ctx) {
 		rlp.DecodeBytes([]byte{0x80}, t.mk())
 		rlp.EncodeToBytes(t.mk())
 	}
+	r.sentinel()
 	// CPU time per phase, summed over workers (reporting only, never an oracle)
 	t0 := cpuMs()
 	phase := func(name string) {
@@ -829,7 +878,11 @@ func run(c *fw.Ctx) {
 			r.nontriv++
 			nvals++
 			if fs := checkValue(g.name, v); len(fs) > 0 {
-				r.report(kase{Part: "value", Group: g.name, Idx: i, Tho: c.Thorough()}, fs)
+				v := v
+				r.report(kase{Part: "value", Group: g.name, Idx: i, Tho: c.Thorough()}, fs, func() []finding { return checkValue(g.name, v) })
+			}
+			if r.expired() {
+				break
 			}
 		}
 		if r.expired() {
@@ -867,8 +920,12 @@ func run(c *fw.Ctx) {
 
 	// (ii) grammar family and field substitutions
 	ng := int64(0)
-	forEachGrammar(c.Thorough(), func(in []byte, huge bool) bool {
+	forEachGrammar(c.Thorough(), func(in []byte, huge bool, declared uint64) bool {
 		if !r.mine() {
+			return true
+		}
+		if allocTainted && declared >= 1<<32 {
+			c.Note("declared_sizes_from_2^32_skipped", "an allocation finding / panic was seen first; not executed to protect the machine")
 			return true
 		}
 		r.input(in, targets, len(in) < 400, huge && len(in) < 100)
